@@ -85,6 +85,8 @@ type Method struct {
 	Msg  string `json:"msg"`
 	// Stop: a whopper that returns without continue-whopper
 	Stop bool `json:"stop,omitempty"`
+	// Err: the body signals an error right after recording its marker
+	Err bool `json:"err,omitempty"`
 }
 
 // Step is one element of the history. Op: "flavor" (define flavor F),
@@ -175,12 +177,13 @@ type world struct {
 	defined []bool
 	meth    map[mkey]int // version (1 = first definition)
 	stop    map[mkey]bool
+	errm    map[mkey]bool
 	late    map[tm]int
 	precs   map[int][]int
 }
 
 func newWorld(c *Case) *world {
-	return &world{c: c, defined: make([]bool, len(c.Flavors)), meth: map[mkey]int{}, stop: map[mkey]bool{}, late: map[tm]int{}, precs: map[int][]int{}}
+	return &world{c: c, defined: make([]bool, len(c.Flavors)), meth: map[mkey]int{}, stop: map[mkey]bool{}, errm: map[mkey]bool{}, late: map[tm]int{}, precs: map[int][]int{}}
 }
 
 // prec is the precedence list of flavor t (indices), without vanilla.
@@ -298,6 +301,7 @@ func (w *world) defMethod(m Method) {
 	first := !w.hasCombo(m.F, m.Msg)
 	w.meth[mkey{m.F, m.Kind, m.Msg}]++
 	w.stop[mkey{m.F, m.Kind, m.Msg}] = m.Stop
+	w.errm[mkey{m.F, m.Kind, m.Msg}] = m.Err
 	for t := range w.c.Flavors {
 		if !w.defined[t] || t == m.F {
 			continue
@@ -398,6 +402,9 @@ type expect struct {
 	nDaemons  int
 	nWhoppers int
 	stopped   bool
+	// errs: a daemon signals an error; the trace ends with its marker, the
+	// send signals the error and nothing after that daemon takes effect
+	errs bool
 }
 
 func (e *expect) trace() []string {
@@ -438,6 +445,10 @@ func (w *world) send(in *inst, msg string, arg val) *expect {
 				stopped = true
 				break
 			}
+			if w.errm[mkey{f, "whopper", msg}] {
+				e.errs = true
+				break
+			}
 		}
 	}
 	for _, wp := range whops {
@@ -445,6 +456,21 @@ func (w *world) send(in *inst, msg string, arg val) *expect {
 		if 0 < ar {
 			arg = []val{wp.f, arg}
 		}
+	}
+	finish := func() *expect {
+		e.nFlavors = len(contrib)
+		e.nWhoppers = len(whops)
+		e.nDaemons = len(e.whopIn) + len(e.before) + len(e.after)
+		if e.primary != "" {
+			e.nDaemons++
+		}
+		e.handled = true
+		e.hasPrim = false
+		e.result = nil
+		return e
+	}
+	if e.errs {
+		return finish()
 	}
 	if stopped {
 		// the innermost whopper entered returns without continuing: no
@@ -468,6 +494,10 @@ func (w *world) send(in *inst, msg string, arg val) *expect {
 		if ver := w.meth[mkey{f, "before", msg}]; 0 < ver {
 			e.before = append(e.before, marker("b", f, ver, ar, arg))
 			contrib[f] = true
+			if w.errm[mkey{f, "before", msg}] {
+				e.errs = true
+				return finish()
+			}
 		}
 	}
 	for _, f := range append(append([]int{}, p...), vanillaIdx) {
@@ -488,6 +518,10 @@ func (w *world) send(in *inst, msg string, arg val) *expect {
 				e.result = []val{f, ver}
 			}
 			contrib[f] = true
+			if w.errm[mkey{f, "primary", msg}] {
+				e.errs = true
+				return finish()
+			}
 			break
 		}
 		if k, v := w.accessor(f, msg); k != "" {
@@ -507,6 +541,10 @@ func (w *world) send(in *inst, msg string, arg val) *expect {
 		if ver := w.meth[mkey{f, "after", msg}]; 0 < ver {
 			e.after = append(e.after, marker("a", f, ver, ar, arg))
 			contrib[f] = true
+			if w.errm[mkey{f, "after", msg}] {
+				e.errs = true
+				return finish()
+			}
 		}
 	}
 	for i := len(whops) - 1; 0 <= i; i-- {
